@@ -215,7 +215,8 @@ func (t *RuntimeType) Name() string {
 }
 
 func (t *RuntimeType) Parameters() []px.Value {
-	if t.runtime == `` {
+	if t.runtime == `` && t.name == `` && t.pattern == nil {
+		// only the default type has no parameters: Runtime['', 'N'] is not equal to it
 		return px.EmptyValues
 	}
 	ps := make([]px.Value, 0, 2)
